@@ -6,7 +6,10 @@
      a vocabulary token) of every program of the valid corpus;
  (c) every character string of length <= 2 over Latin-1 and length 3 over a
      40-symbol set;
- (d) constructed rule-breakers over contexts: must be rejected.
+ (d) constructed rule-breakers over contexts: must be rejected;
+ (e) expression-shaped texts; (f) every control skeleton of C05's alphabet (up to two routine definitions in
+     any statement position, macros, row/column commands, every loop kind): accepted => executable;
+ (g) texts whose size is the parameter: every nesting depth and every literal length up to a bound.
 Oracle: ScriptJob.from_string never raises; rejected => a `Line <n>:` message and
 job.program is None; accepted => loaded and run (recording clock, step cap) with
 no internal fault of the VM machinery.
@@ -221,6 +224,17 @@ def expression_texts():
         yield 'if { x %s 3 %s [ f 2 ] } on all' % (a, b)
     for a, b, c in itertools.product(['*', '-', '/', '<', 'and'], repeat=3):     # no ^ towers: 2^3^2^5 is astronomically large
         yield 'assign q { 2 %s 3 %s 2 %s 5 }' % (a, b, c)
+    # operands of every kind in every position, among them strings spelled like operators, braces round an
+    # operand, calls and parenthesised operands
+    operands = ['2', 'x', '"^"', '"+"', '"and"', '"not"', '"("', '{ 3 }', '{ x + 1 }', '[ f 2 ]', '( 3 )', 'hue', 'm', '-2']
+    for op in ('^', '*', '+', '<', 'and'):
+        for x, y in itertools.product(operands, repeat=2):
+            yield 'assign q { %s %s %s }' % (x, op, y)
+            yield 'print { 2 %s %s %s }' % (op, x, y)            # an operand too many
+        for x in operands:
+            yield 'print { %s }' % x
+            yield 'print { { %s } }' % x
+            yield 'if { %s %s 2 ^ 2 } on all' % (x, op)
 
 
 def _part_e(rank, n):
@@ -309,6 +323,58 @@ def _merge(dumps):
     return tot
 
 
+def _part_f(rank, n, size):
+    """every control skeleton (routine definitions in every statement position, up to two of them, macros,
+    row/column commands, empty blocks, every loop kind, break/return): accepted => runs without internal fault"""
+    from ..lang import gen_k, render
+    w = world.World(world.POP_MIXED)
+    t = Tally()
+    for i, (sz, prog) in enumerate(gen_k.extended_programs(size)):
+        if i % n != rank:
+            continue
+        text = render.render(prog)
+        t.add(text, *judge(w, text))
+    return t.dump()
+
+
+def size_texts(thorough):
+    """(g) texts whose size is the parameter: every nesting depth 1..D of each nesting construct and every
+    length of a numeric literal (all depths/lengths up to a bound, then decades): the compiler must finish in
+    accept or a line-numbered rejection for each"""
+    depths = list(range(1, 401 if not thorough else 1201)) + [1500, 2000, 3000, 5000, 10000]
+    for d in depths:
+        yield 'print { ' + '( ' * d + '1' + ' )' * d + ' }'
+        yield 'print ' + '{ ' * d + '1' + ' }' * d
+        yield 'if 1 ' * d + 'print 1'
+        yield 'repeat 1 ' * d + 'print 1'
+        yield 'if 1 begin ' * d + 'print 1' + ' end' * d
+        yield 'print ' + '[ f ' * d + '1' + ' ]' * d
+        yield 'print { ' + '- ' * d + '1 }'
+        yield 'print { 1 ' + '+ 1 ' * d + '}'
+        yield 'print { 2 ' + '^ 1 ' * d + '}'
+        yield 'if 0 print 0 ' + 'else if 0 print 0 ' * d + 'else print 1'
+    lengths = list(range(1, 41)) + list(range(50, 6001, 50)) + [4299, 4300, 4301, 10000]
+    for n in lengths:
+        yield 'print ' + '9' * n
+        yield 'print -' + '1' * n
+        yield 'print 0.' + '0' * n + '1'
+        yield 'print ' + '1' * n + '.5'
+        yield 'assign v ' + '7' * n + ' print 1'
+        yield 'print "' + 'a' * n + '"'
+        yield 'print ' + 'n' * n
+
+
+def _part_g(rank, n, thorough):
+    w = world.World(world.POP_MIXED)
+    t = Tally()
+    for i, text in enumerate(size_texts(thorough)):
+        if i % n != rank:
+            continue
+        text = PRELUDE + text
+        t.add(text[:300] + ('...[%d characters]' % len(text) if len(text) > 300 else ''), *judge(w, text))
+    return t.dump()
+
+
 def run(tier, seed):
     rep = Report()
     thorough = tier == 'thorough'
@@ -325,6 +391,9 @@ def run(tier, seed):
     parts['b:mutations'] = _merge(par.run(_part_b, (seeds, VOCAB if thorough else CORE)))
     parts['c:characters'] = _merge(par.run(_part_c, (thorough,)))
     parts['e:expressions'] = _merge(par.run(_part_e, ()))
+    parts['f:control-skeletons'] = _merge(par.run(_part_f, (6 if thorough else 5,)))
+    parts['g:sizes'] = _merge(par.run(_part_g, (thorough,)))
+    assert parts['f:control-skeletons']['accept'] > 1000
     t = Tally()
     for tag, text in rule_breakers():
         outcome, kind, detail = judge(w, text, must_reject=True)
@@ -342,7 +411,7 @@ def run(tier, seed):
         'traces_validated_against_impl': total['n'],
         'evaluations': total['n'],
         'distinct_nontrivial': total['accept'],
-        'rule': 'every text of parts a-d is compiled by ScriptJob.from_string on the real parser; accepted ones are loaded '
+        'rule': 'every text of parts a-g is compiled by ScriptJob.from_string on the real parser; accepted ones are loaded '
                 'and run on the real VM (cap 2000 steps); distinct_nontrivial = texts the compiler accepted (each executed)',
         'exhaustive': True,
         'texts_per_part': {k: v['n'] for k, v in parts.items()},
